@@ -106,11 +106,11 @@ def style_key(st):
     """(true attributes, color, bgcolor, link) of a rich Style."""
     attrs = tuple(a for a in ATTRS if getattr(st, a))
     def ck(c):
+        # a colour is identified by what the encoder would write for it: (38, 5, 16) and the
+        # invalid "standard colour 16" (which would be written as SGR 98) are different colours
         if c is None or c.is_default:
             return None
-        if c.triplet is not None and c.number is None:
-            return ("rgb",) + tuple(c.triplet)
-        return ("idx", c.number)
+        return tuple(c.get_ansi_codes())
     return (attrs, ck(st.color), ck(st.bgcolor), st.link)
 
 
